@@ -117,8 +117,14 @@ class PathCond:
                 if n.kind != "stmt" or not isinstance(a_, (ast.Assign, ast.AnnAssign)) or getattr(a_, "value", None) is None:
                     continue
                 tg_ = a_.targets[0] if isinstance(a_, ast.Assign) and len(a_.targets) == 1 else (a_.target if isinstance(a_, ast.AnnAssign) else None)
-                if not (isinstance(tg_, ast.Name) and tg_.id in atoms) or not isinstance(a_.value, (ast.Compare, ast.BoolOp, ast.UnaryOp)):
+                if not (isinstance(tg_, ast.Name) and tg_.id in atoms) or not isinstance(a_.value, (ast.Compare, ast.BoolOp, ast.UnaryOp, ast.Call)):
                     continue
+                if isinstance(a_.value, ast.Call):
+                    # only a predicate of the same module (annotated `-> bool`) bound once to a flag: `is_future = _is_cal_gt(a, b)`
+                    callee_ = cfg.fn.module.functions.get(a_.value.func.id) if isinstance(a_.value.func, ast.Name) else None
+                    is_pred_ = callee_ is not None and getattr(callee_.node, "returns", None) is not None and ast.unparse(callee_.node.returns) == "bool"
+                    if not is_pred_ or sum(1 for x_ in ast.walk(cfg.fn.node) if isinstance(x_, ast.Name) and isinstance(x_.ctx, ast.Store) and x_.id == tg_.id) != 1:
+                        continue
                 if isinstance(a_.value, ast.UnaryOp) and not isinstance(a_.value.op, ast.Not):
                     continue
                 if isinstance(a_.value, ast.BoolOp) and not all(isinstance(v_, (ast.Compare, ast.BoolOp, ast.UnaryOp, ast.Name, ast.Attribute)) for v_ in a_.value.values):
